@@ -143,22 +143,27 @@ theorem u32_spec (s : St) :
     | .hang => False := by
   obtain ⟨rest, al, out⟩ := s
   match rest with
-  | [] => simp [u32, u32r, bind_apply, D.bind]
-  | [_] => simp [u32, u32r, bind_apply, D.bind]
-  | [_, _] => simp [u32, u32r, bind_apply, D.bind]
-  | [_, _, _] => simp [u32, u32r, bind_apply, D.bind]
-  | _ :: _ :: _ :: _ :: r => simp [u32, u32r, bind_apply, D.bind, emit, pure, D.pure]
+  | [] => simp [u32, u32r_eq, Spec.u32r, bind_apply, D.bind]
+  | [_] => simp [u32, u32r_eq, Spec.u32r, bind_apply, D.bind]
+  | [_, _] => simp [u32, u32r_eq, Spec.u32r, bind_apply, D.bind]
+  | [_, _, _] => simp [u32, u32r_eq, Spec.u32r, bind_apply, D.bind]
+  | _ :: _ :: _ :: _ :: r => simp [u32, u32r_eq, Spec.u32r, bind_apply, D.bind, emit, pure, D.pure]
 
-theorem readTagsN_spec (n : Nat) (s : St) :
-    match readTagsN n s with
+/-- the loop test `i < t` is the bound of `p.Tags[i]` (`len(p.Tags) = t`): `hi` -/
+theorem readTagsN_spec (len i n : Nat) (s : St) (hi : i + n ≤ len) :
+    match readTagsN len i n s with
     | .ok _ s' => s'.alloc = s.alloc ∧ s'.rest.length + 4 * n = s.rest.length
     | .err _ s' => s'.alloc = s.alloc ∧ s'.rest.length ≤ s.rest.length
     | .panic _ => False
     | .hang => False := by
-  induction n generalizing s with
+  induction n generalizing s i with
   | zero => simp [readTagsN, pure, D.pure]
   | succ n ih =>
     unfold readTagsN
+    rw [bind_apply]
+    unfold D.bind
+    have hlt : i < len := by omega
+    simp only [tagIdx, hlt, if_true]
     rw [bind_apply]
     unfold D.bind
     have h := u32_spec s
@@ -169,8 +174,8 @@ theorem readTagsN_spec (n : Nat) (s : St) :
       by_cases ht : t = 0
       · simp only [ht, if_true, fail]; omega
       · simp only [ht, if_false]
-        have := ih s1
-        cases hr : readTagsN n s1 with
+        have := ih (i + 1) s1 (by omega)
+        cases hr : readTagsN len (i + 1) n s1 with
         | ok _ s2 => rw [hr] at this; simp only [] at this ⊢; omega
         | err _ s2 => rw [hr] at this; simp only [] at this ⊢; omega
         | panic m => rw [hr] at this; exact this
@@ -190,8 +195,9 @@ theorem safe_readTags (hK : 2 ≤ K) {t : Nat} (ht : t < 2 ^ 16) : Safe K 0 0 bT
     rw [mk_nat_ok t 4 _ s (by rw [maxAlloc_val]; omega)]
     simp only []
     have hm : Facts.packetMaxTags = 32768 := by decide
-    have := readTagsN_spec (min t Facts.packetMaxTags) { s with alloc := s.alloc + t * 4 }
-    cases hr : readTagsN (min t Facts.packetMaxTags) { s with alloc := s.alloc + t * 4 } with
+    have := readTagsN_spec t 0 (min t Facts.packetMaxTags) { s with alloc := s.alloc + t * 4 }
+      (by have := Nat.min_le_left t Facts.packetMaxTags; omega)
+    cases hr : readTagsN t 0 (min t Facts.packetMaxTags) { s with alloc := s.alloc + t * 4 } with
     | ok _ s2 =>
       rw [hr] at this
       simp only [Bound] at this ⊢
@@ -386,7 +392,8 @@ theorem safe_rRegistry (fl : Nat) : Safe 1 Facts.c04_sizeofRegEntry 0 0 (rRegist
 
 theorem bodyC_len (c : Bool) (l : Nat) {s s' : St} {b : Bytes} (h : bodyC c l s = .ok b s') :
     s'.rest.length + b.length = s.rest.length ∧ s'.alloc = s.alloc + (if c then l else 0) ∧ b.length = l := by
-  unfold bodyC at h
+  rw [bodyC_eq] at h
+  unfold Spec.bodyC at h
   by_cases hl : s.rest.length < l
   · simp only [hl, if_true] at h; cases h
   · simp only [hl, if_false] at h
@@ -409,7 +416,8 @@ theorem bytesRaw_len (c : Bool) {s s' : St} {b : Bytes} (hs : s.rest.length ≤ 
   have e0 := u8r_consumes h3
   have l1 := safe_le (K := 1) (safe_lenHdrK t) (by omega) h4
   have a0 : s0.alloc = s.alloc := by
-    unfold u8r at h3
+    rw [u8r_eq] at h3
+    unfold Spec.u8r at h3
     cases hr : s.rest with
     | nil => rw [hr] at h3; cases h3
     | cons x r => rw [hr] at h3; injection h3 with _ e; subst e; rfl
@@ -466,11 +474,11 @@ theorem scriptRound_spec (s : St) (hs : s.rest.length ≤ Facts.maxSlice) :
   obtain ⟨rest, al, out⟩ := s
   match rest with
   | [] =>
-    simp [scriptRound, bind_apply, D.bind, charge, u8, u8r]
+    simp [scriptRound, bind_apply, D.bind, charge, u8, u8r_eq, Spec.u8r]
   | [x] =>
-    simp [scriptRound, bind_apply, D.bind, charge, u8, u8r, bool, emit, pure, D.pure, hk, hp]
+    simp [scriptRound, bind_apply, D.bind, charge, u8, u8r_eq, Spec.u8r, bool, emit, pure, D.pure, hk, hp]
   | x :: y :: r2 =>
-    simp only [scriptRound, bind_apply, D.bind, charge, u8, u8r, bool, emit, pure, D.pure]
+    simp only [scriptRound, bind_apply, D.bind, charge, u8, u8r_eq, Spec.u8r, bool, emit, pure, D.pure]
     simp only [List.length_cons] at hs ⊢
     generalize decide (y = 1) = e
     cases e with
